@@ -649,6 +649,11 @@ class C06(PropertyCheck):
         # end_to_end_pulses_scheduled_partial) takes the commuting-family set and the conflict-edge variant from
         # Gen/SchedRule.lean: regenerate it from the tree under check as C05/C11 do
         SC.regenerate()
+        # the transpile stage of the pipeline model is C13's (Model/Transpile.lean): its reading of the string basis
+        # "CNOT" in _decompose_multi_qubit_gates comes from Gen/DecompVariant.lean (fixes/C03-3), regenerated from the tree
+        from translate import decomp as _decomp
+        _decomp.regenerate_variant()
+        out.append("DecompVariant.lean")
         return out
 
     # ---------------------------------------------------------------------------------
